@@ -8,6 +8,21 @@ CHECKS = {
         text="Generated exploration of the parameter lattice (bounds at 2^k-1/2^k/2^k+1/p-2/p-1, dividing and non-dividing chunk lengths, 2..254 aggregators, 1..255 proofs, three XOFs incl. a rejection-heavy one) with batches of in-range measurements; every message goes through its encoding; oracle is an independent big-integer aggregate plus a per-report check that output shares sum to the truncated documented encoding. Finds parameter-dependent defects, does not prove absence.",
         note="Trusted: the harness's reference encoder/aggregate (written from the type documentation), proptest, splitmix expansion of seeds into randomness.",
         design="3/C01"),
+    "C03": dict(
+        technique="property-based testing (proptest): generated Poplar1 batches and admissible aggregation-parameter chains (incl. deep levels > 21845) vs plain prefix counts; heavy hitters vs brute force",
+        text="Generated exploration over bit lengths 1..65536 (deep levels in every run), candidate sets mixing on-path prefixes, siblings and random strings, chains of parameters on the same reports, three XOF instantiations incl. a rejection-heavy one; two-round verification over the wire; oracle is a plain count of inputs starting with each prefix and brute-force heavy hitters.",
+        note="Trusted: the harness's bit-string model and prefix counting; deterministic sharding through TestVectorClient::shard_with_random.",
+        design="3/C03"),
+    "C07": dict(
+        technique="grammar-based generation + round-trip/canonicity oracle (proptest), honest-message harvest from protocol runs",
+        text="A per-type grammar written from the wire format builds canonical encodings and strings with exactly one known defect for ~30 message types × generated decoding parameters; two-sided oracle (canonical ⇒ accepted, defective ⇒ rejected) plus accepted ⇒ re-encodes to the same bytes ∧ encoded_len exact ∧ decode(encode(v)) = v; every message of honest Prio3/Poplar1/Prio2 runs is probed too.",
+        note="Trusted: the layouts in engine/src/codec.rs (independent of the decoders). A libFuzzer tier with the same oracle is planned for the thorough command.",
+        design="3/C07"),
+    "C08": dict(
+        technique="exhaustive short-string enumeration + header-extreme enumeration + mutation-based generation under panic/allocation/watchdog monitors",
+        text="All byte strings of length ≤ 2 for a fixed table of 100+ (type, parameter) pairs and all 3-byte strings for header-bearing types are enumerated; header fields at extreme values × body lengths enumerated; generated near-valid encodings with all single-bit flips and truncations, splices and random strings; overflow checks on; per-thread allocation accounting with a bound proportional to input length and parameter size; supervised child process turns aborts/hangs into reproducible violations.",
+        note="Trusted: the counting allocator; the allocation bound constants (64 KiB + 64·len + 8·nominal size).",
+        design="3/C08"),
 }
 
 ALL = ["C%02d" % i for i in range(1, 21)]
